@@ -287,7 +287,22 @@ def run(F, R, tier):
                 continue       # the `expect` on the parse result: C05's business (class RULE ⇐ this rule)
             r2.require(len(ps) == 1 and SR.derives(q.ret, ps[0].result.t), (fn, "parsed"), "IotaDID::new does not return the parsed (validated, normalised) DID")
         r2.site("IotaDID::new formats \"did:iota:{}:{}\" over (network_name, prefix_hex(bytes)) and parses it: %s" % ok)
-    r2.floor(9)
+    # the accessors decompose what check_validity validated: network_str / tag_str are components 0 / 1 of denormalized_components(method_id)
+    # on every path — no shortcut of their own (a DID on network `0xabc` must not read back as the default network)
+    for acc, comp in (("network_str", "0"), ("tag_str", "1")):
+        afn = ID + "::" + acc
+        if not r2.anchor(F.hir(afn), afn):
+            continue
+        taba = SR.Table(F, afn, opaque=r"denormalized_components$|::method_id$", rule=r2)
+        oka = bool(taba.paths)
+        for q in taba.paths:
+            rt = sym.term(q.ret)
+            good = (isinstance(rt, tuple) and rt[:1] == ("field",) and rt[2] == comp and isinstance(rt[1], tuple) and rt[1][:1] == ("call",) and rt[1][1].endswith("denormalized_components")
+                    and len(rt[1][2]) == 1 and isinstance(rt[1][2][0], tuple) and rt[1][2][0][:1] == ("call",) and rt[1][2][0][1].endswith("::method_id") and rt[1][2][0][2] == (SR.SELF,))
+            if not r2.require(good, (afn, "component"), "IotaDID::%s does not return component %s of denormalized_components(self.method_id()) on every path: %s — path: %s" % (acc, comp, sym.fmt(rt)[:100], q.describe()[:120])):
+                oka = False
+        r2.site("IotaDID::%s = denormalized_components(method_id).%s on %d path(s): %s" % (acc, comp, len(taba.paths), oka))
+    r2.floor(11)
 
     # ------------------------------------------------------------------ R3 equality on the normalised field
     r3 = R.rule("C17-R3", "T13", "Eq/Ord/Hash are derived on the single normalised CoreDID field; the field is private")
